@@ -45,6 +45,19 @@ def cases(ctx, n):
         out.append([('always', w(a)), ('always', w(na))])
         out.append([('always', w(na)), ('always', w(a))])
     out.append([('always', ('or', ('prev', None, a), ('prev', None, na)))])
+    # several ground theory atoms for one (formula, state): the same conjunction written as one formula and as several elements, and atoms of
+    # look-ahead constraints, which are grounded once more one step later - every one of them must be tied to the literal of the pair
+    a_, b_ = ('atom', 'a'), ('atom', 'b')
+    for part in ('always', 'dynamic'):
+        out.append([(part, ('and', a_, b_)), (part, ('ELEMS', [a_, b_]))])
+        out.append([(part, ('ELEMS', [b_, a_])), (part, ('and', a_, b_))])
+        out.append([(part, ('ELEMS', [a_, b_])), ('always', ('and', ('and', a_, b_), ('true',))), ('always', ('prev', None, ('and', a_, b_)))])
+    for f in [a_, ('and', a_, b_), ('prev', None, a_), ('next', None, a_), ('until', a_, b_), ('since', None, a_), ('or', a_, ('wnext', None, b_)), ('not', ('next', 2, a_)),
+              ('DEL', ('dia', ('star', ('skip',)), a_)), ('DEL', ('box', ('seq', ('test', a_), ('skip',)), b_))]:
+        for part in ('always+1', 'dynamic+1', 'initial+1'):
+            out.append([(part, f)])
+            out.append([(part, f), ('always', f)])
+            out.append([('always', f if f[0] == 'DEL' else ('or', f, f)), (part, f)])
     # &del formulas in the documented normal form (iteration over step-consuming paths; tests are atoms or constants), alone, related to one
     # another (a sub-formula, the other modality) and next to &tel formulas over the same atoms
     for i in range(n // 2):
@@ -70,7 +83,21 @@ def cases(ctx, n):
 
 
 def ftxt(f):
+    if f[0] == 'ELEMS':          # the conjunction written as several elements of one theory atom
+        return ' ; '.join(lang.fml_txt(x) for x in f[1])
     return lang.dfml_txt(f[1]) if f[0] == 'DEL' else lang.fml_txt(f)
+
+
+def rawf(f):
+    """what the model is given: several elements are the conjunction of the elements sorted by their representation (translate_conjunction);
+    the elements used here are atoms, whose representations sort like their names"""
+    if f[0] == 'ELEMS':
+        els = sorted(f[1], key=lambda x: x[1])
+        g = els[0]
+        for x in els[1:]:
+            g = ('and', g, x)
+        return g
+    return f
 
 
 def nofinal(d):
@@ -85,7 +112,9 @@ def program(fs):
     neg = any(g == ('atom', '-a') for _, f in fs if f[0] != 'DEL' for g in gen.subformulas(f))
     txt = '#program always.\n{ a; b%s }.\n' % ('; -a' if neg else '')
     for i, (part, f) in enumerate(fs):
-        txt += '#program %s.\n{ m(%d) }.\n:- &%s { %s }, m(%d).\n' % (part, i, 'del' if f[0] == 'DEL' else 'tel', ftxt(f), i)
+        la = part.endswith('+1')      # a constraint that looks one state ahead: its theory atom of state t is grounded at step t (temporary copy) and again at step t+1
+        txt += '#program %s.\n:- &%s { %s }, m(%d)%s.\n' % (part[:-2] if la else part, 'del' if f[0] == 'DEL' else 'tel', ftxt(f), i, ", not zz'" if la else '')
+        txt += '#program always.\n{ m(%d) }.\n' % i
     return txt
 
 
@@ -113,7 +142,10 @@ def canon_stream(items):
 def impl_items(steps):
     """the recorded backend calls of all steps as one stream of items (per step), plus the kind of every auxiliary atom"""
     per_step, kinds = [], {}
+    ties = []          # per step: theory literal -> the literal it was made equal to (None: never tied), as (positive, atom) like the items
     for st in steps:
+        tie = {}
+        ties.append(tie)
         sym = {int(k): v for k, v in st['symbols'].items()}
         TL = {a[1] for a in st['atoms']}
         for l in TL:
@@ -144,18 +176,30 @@ def impl_items(steps):
                     # make_equal(theory literal, literal): two constraints [a, -b], [-a, b] with a a theory literal
                     if len(body) == 2 and body[0] in TL and i + 1 < len(evs) and evs[i + 1][0] == 'rule' and not evs[i + 1][1] \
                             and evs[i + 1][2] == [-body[0], -body[1]]:
+                        tie.setdefault(body[0], []).append(lit(-body[1]))
                         i += 2
                         continue
                     items.append(('cons', [lit(x) for x in body]))
             i += 1
         per_step.append(items)
-    return per_step, kinds
+    return per_step, kinds, ties
 
 
 def model_items(answer, names):
     per_step, kinds = [], {0: 'false'}
+    roots = []
+
+    def mlit(l):
+        if l == '?':
+            return None
+        if l[1] == 'U':
+            a, k = l[2:].split('.')
+            return (l[0] == '+', ('U', names[int(a)], int(k)))
+        return (l[0] == '+', ('X', int(l[2:])))
     for chunk in answer.split(' || '):
-        evs = chunk.split(' | ')[0].strip()
+        parts_ = chunk.split(' | ')
+        roots.append([mlit(x) for x in parts_[2].split()] if len(parts_) > 2 else [])
+        evs = parts_[0].strip()
         items = []
         for e in (evs.split(' ; ') if evs else []):
             tk = e.split()
@@ -176,7 +220,7 @@ def model_items(answer, names):
                             lits.append((l[0] == '+', ('X', int(l[2:]))))
                     items.append(('cons', lits))
         per_step.append(items)
-    return per_step, kinds
+    return per_step, kinds, roots
 
 
 def compare(ctx, fss, H):
@@ -197,7 +241,7 @@ def compare(ctx, fss, H):
                 if owner is None or owner >= len(fs):
                     ok = False
                     break
-                roots.append('%d %s' % (k, lang.raw_tok(fs[owner][1], A)))
+                roots.append('%d %s' % (k, lang.raw_tok(rawf(fs[owner][1]), A)))
             steps_tok.append('%d %s' % (len(roots), ' '.join(roots)))
         if ok:
             lines.append('thy 90 91 4000 %d %s' % (len(steps_tok), ' '.join(steps_tok)))
@@ -216,14 +260,16 @@ def compare(ctx, fss, H):
         else:
             # the schedule of the theory atoms must be the one of the program parts
             for t, st in enumerate(r['steps']):
-                want = sorted({(t, ftxt(f)) for i, (part, f) in enumerate(fs) if PARTS[part](t)})     # gringo keeps one theory atom per distinct text and step
+                want = {(t, ftxt(f)) for i, (part, f) in enumerate(fs) if PARTS[part[:-2] if part.endswith('+1') else part](t)}     # gringo keeps one theory atom per distinct text and step
+                want |= {(t - 1, ftxt(f)) for i, (part, f) in enumerate(fs) if part.endswith('+1') and t >= 1 and PARTS[part[:-2]](t - 1)}
+                want = sorted(want)
                 got = sorted({(k, ftxt(fs[o][1])) for k, _, o in st['atoms']})
                 if want != got:
                     rec.update(status='differ', what='theory atoms grounded at step %d are %s, the program parts say %s' % (t, got, want))
                     break
             if rec['status'] == 'agree':
-                isteps, ikinds = impl_items(r['steps'])
-                msteps, mkinds = model_items(ans[ci], ['a', 'b', '-a'])
+                isteps, ikinds, ities = impl_items(r['steps'])
+                msteps, mkinds, mroots = model_items(ans[ci], ['a', 'b', '-a'])
                 ic, iren = canon_stream([x for s_ in isteps for x in s_])
                 mc, mren = canon_stream([x for s_ in msteps for x in s_])
                 rec['events'] = len(mc)
@@ -238,6 +284,33 @@ def compare(ctx, fss, H):
                         okk = (mk == 'choice' and ik in ('choice', 'theory')) or (mk and mk.startswith('ext') and ik == 'ext') or (mk == 'false' and ik == 'plain') or (mk == 'free' and ik == 'ext')
                         if not okk:
                             rec.update(status='differ', what='auxiliary atom %s: model kind %s, telingo kind %s' % (c, mk, ik))
+                            break
+                if rec['status'] == 'agree':
+                    # the ties of the ground theory atoms: every theory literal is the literal of its (formula, state) pair itself (representative of a
+                    # defining class) or has been made equal to it - the literal the model caches for that root (up to the renaming of the auxiliaries)
+                    def canon_i(l):
+                        return l if l[1][0] == 'U' else (l[0], ('X', iren.get(l[1][1], 'impl-%s' % l[1][1])))
+
+                    def canon_m(l):
+                        return l if l[1][0] == 'U' else (l[0], ('X', mren.get(l[1][1], 'model-%s' % l[1][1])))
+                    for t, st in enumerate(r['steps']):
+                        for j, (k, lit_, o) in enumerate(st['atoms']):
+                            ml = mroots[t][j] if t < len(mroots) and j < len(mroots[t]) else None
+                            if ml is None:
+                                rec.update(status='differ', what='the model has no literal for the root of theory atom %d at step %d' % (j, t))
+                                break
+                            if ml[1][0] == 'X' and ml[1][1] not in mren and ml[1][1] != 0:
+                                continue          # a literal that occurs in no constraint (e.g. a lone placeholder): nothing to compare it by
+                            cands = [canon_i((True, ('X', lit_)))] + [canon_i(x) for x in ities[t].get(lit_, [])]
+                            want_l = canon_m(ml) if ml[1] != ('X', 0) else None
+                            if want_l is None:
+                                continue          # tied to the constant literal: covered by the constraint stream
+                            if want_l not in cands:
+                                rec.update(status='differ', what='theory atom of `%s` at state %d (grounded at step %d) is tied to %s, the model ties it to %s' % (
+                                    ftxt(fs[o][1]), k, t, json.dumps(cands), json.dumps(want_l)))
+                                break
+                            rec['ties'] = rec.get('ties', 0) + 1
+                        if rec['status'] != 'agree':
                             break
         out.append(rec)
     return out
